@@ -14,11 +14,17 @@
      surviving_binding_is_the_one_read : the binding in effect at each read is the one that survives
    unused_sound is FALSE of the faithful model and of pyflyby (F31, F34, a class's own name, a stale dotted key,
    duplicate items: *_refuted below; the last clause is the same statement seen from the rewriting side);
-   block_render_preserves_env is false for incompatible blocks (F7). *)
+   block_render_preserves_env is false for incompatible blocks (F7).
+
+   PROVED for the analysis side (which imports are reported unused): fragment 1 = Fragment.u1_block (module-level code,
+   one-component import keys) and fragment 2 = Fragment.u2_block + Fragment.imports_once (fragment 1 + def / lambda
+   scopes to any depth; every import statement a top-level statement; every imported name bound exactly once at module
+   level and not a builtin / initial-namespace name).  On both, composed with remove_preserves_trace: the removal step
+   of tidy-imports leaves the resolution trace unchanged (C02_tidy_remove_preserves_trace_stage1 / _stage2). *)
 From Coq Require Import NArith List Bool String.
 From Verif Require Import Base.Chars Imports.Import Imports.ImportSet Imports.ImportSetProofs
                           Scope.PySyntax Scope.Finder Scope.PySem Scope.Fragment Scope.Remove Scope.UnusedProofs Scope.RemoveProofs
-                          ImportSem.BlockEnv ImportSem.BlockEnvProofs.
+                          ImportSem.BlockEnv ImportSem.BlockEnvProofs Scope.Stage2Unused Scope.EndToEnd.
 Import ListNotations.
 Local Open Scope string_scope.
 
@@ -129,3 +135,80 @@ Example C02_nonvacuous_remove :
   remove_top R p = [SImport 1 [([60], Some 61)]; SImport 2 []; SDef 3 64 [] P0 None [SExpr 4 (ELoad 61 [65])]] /\
   pysem [] [[]] p = [(4%nat, 61, Bound (BImp 1 ([60], [61])))].
 Proof. vm_compute. split; reflexivity. Qed.
+
+
+(* ---------- stage 2: function and lambda scopes ---------- *)
+(* unused_sound for stage-2 code (Fragment.u2_block: def with decorators / defaults / annotations / nested defs / closures,
+   lambdas; import statements only at the top level of the module, binding one-component keys; no `from __future__`) in
+   which every imported name is bound exactly once at module level and is no builtin / initial-namespace name
+   (Fragment.imports_once: F34, F31 and the shadowed-builtin witness below are what happens otherwise) *)
+Theorem C02_unused_sound_stage2 : forall bi ns p, u2_block p = true -> star_free bi ns = true ->
+  imports_once bi ns p = true -> NoDup (imp_events (bsrcs_block false p)) ->
+  forall l i, In (l, i) (snd (finder bi ns true p)) ->
+  forall ln n, ~ In (ln, n, Bound (BImp l i)) (pysem bi ns p).
+Proof. exact u2_unused_sound. Qed.
+Print Assumptions C02_unused_sound_stage2.
+
+(* end to end: remove exactly what scan_for_import_issues reports unused (tidy_remove) - the trace is unchanged, and
+   so is every final global that is not a removed import *)
+Theorem C02_tidy_remove_preserves_trace_stage1 : forall bi ns p, u1_block p = true -> star_free bi ns = true ->
+  NoDup (imp_events (bsrcs_block false p)) ->
+  pysem bi ns (tidy_remove bi ns p) = pysem bi ns p /\
+  forall x b, lookup_b x (final_globals bi ns p) = Some b -> removed_src (in_report (snd (finder bi ns true p))) b = false ->
+              lookup_b x (final_globals bi ns (tidy_remove bi ns p)) = Some b.
+Proof. exact tidy_remove_preserves_trace_stage1. Qed.
+Print Assumptions C02_tidy_remove_preserves_trace_stage1.
+Theorem C02_tidy_remove_preserves_trace_stage2 : forall bi ns p, u2_block p = true -> star_free bi ns = true ->
+  imports_once bi ns p = true -> NoDup (imp_events (bsrcs_block false p)) ->
+  pysem bi ns (tidy_remove bi ns p) = pysem bi ns p /\
+  forall x b, lookup_b x (final_globals bi ns p) = Some b -> removed_src (in_report (snd (finder bi ns true p))) b = false ->
+              lookup_b x (final_globals bi ns (tidy_remove bi ns p)) = Some b.
+Proof. exact tidy_remove_preserves_trace_stage2. Qed.
+Print Assumptions C02_tidy_remove_preserves_trace_stage2.
+(* the same with the report fix_unused_and_missing_imports computes (parse_docstrings=True) and the trace that includes
+   doctest examples (a stage-2 program has no docstring statement) *)
+Theorem C02_tidy_fix_preserves_trace_stage2 : forall bi ns p, u2_block p = true -> star_free bi ns = true ->
+  imports_once bi ns p = true -> NoDup (imp_events (bsrcs_block false p)) ->
+  pysem_doc bi ns (remove_top (in_report (snd (finder_doc bi ns p))) p) = pysem_doc bi ns p.
+Proof. exact tidy_fix_preserves_trace_stage2. Qed.
+Print Assumptions C02_tidy_fix_preserves_trace_stage2.
+
+(* what fragment 2 excludes (beyond F34 / F31 / duplicate items above), one witness each *)
+Local Open Scope N_scope.
+(* a function-local import used only by a nested function defined before it: the nested read is deferred, and f's
+   scope is popped - its unused checkers reported - before the deferred checks run
+     def f():
+         def g(): return os
+         import os
+         g()                                                                                        *)
+Definition W_local_import : program :=
+  [SDef 1 90 [] P0 None [SDef 2 91 [] P0 None [SExpr 3 (ELoad 92 [])]; SImport 4 [([92], None)]; SExpr 5 (EOp [ELoad 91 []])]].
+Theorem C02_unused_sound_refuted_local_import : ~ unused_sound_at W_local_import.
+Proof. unfold unused_sound_at. intro H. apply (H 4%nat ([92], [92])) with (ln := 3%nat) (n := 92); vm_compute; auto. Qed.
+Print Assumptions C02_unused_sound_refuted_local_import.
+(* an import that shadows a builtin / namespace name, read in a function defined before it (F34 with the first binding
+   coming from the namespace):   def f(): len.x ; import m as len                                   *)
+Definition W_shadow_builtin : program := [SDef 1 90 [] P0 None [SExpr 2 (ELoad 93 [94])]; SImport 3 [([95], Some 93)]].
+Theorem C02_unused_sound_refuted_shadow_builtin :
+  ~ (forall l i, In (l, i) (snd (finder [93] [[]] true W_shadow_builtin)) ->
+     forall ln n, ~ In (ln, n, Bound (BImp l i)) (pysem [93] [[]] W_shadow_builtin)).
+Proof. intro H. apply (H 3%nat ([95], [93])) with (ln := 2%nat) (n := 93); vm_compute; auto. Qed.
+Print Assumptions C02_unused_sound_refuted_shadow_builtin.
+
+(* non-vacuity of stage 2:
+     def f(): a.x          line 1-2: read of a deferred, resolved against the later import
+     import m as a         line 3
+     import n as b         line 4
+     from q import c       line 5: unused
+     b                     line 6                                                               *)
+Definition P_u2 : program :=
+  [SDef 1 100 [] P0 None [SExpr 2 (ELoad 101 [102])]; SImport 3 [([103], Some 101)]; SImport 4 [([104], Some 105)];
+   SImportFrom 5 [106] [(107, None)]; SExpr 6 (ELoad 105 [])].
+Example C02_nonvacuous_stage2 :
+  u2_block P_u2 = true /\ u1_block P_u2 = false /\ imports_once [] [[]] P_u2 = true /\
+  snd (finder [] [[]] true P_u2) = [(5%nat, ([106; 107], [107]))] /\
+  tidy_remove [] [[]] P_u2 =
+    [SDef 1 100 [] P0 None [SExpr 2 (ELoad 101 [102])]; SImport 3 [([103], Some 101)]; SImport 4 [([104], Some 105)];
+     SImportFrom 5 [106] []; SExpr 6 (ELoad 105 [])] /\
+  pysem [] [[]] P_u2 = [(2%nat, 101, Bound (BImp 3 ([103], [101]))); (6%nat, 105, Bound (BImp 4 ([104], [105])))].
+Proof. vm_compute. repeat split. Qed.
